@@ -703,6 +703,14 @@ func (tr *Trans) propsOf() []string {
 
 // callerAsserts checks `assert before|after call <callee> #n` clauses of the enclosing contract.
 func (tr *Trans) callerAsserts(when, callee string, ord int, args []Val, res Val, pre, post *State) {
+	if tr.top && when == "after" && len(res.C) > 0 {
+		// lastres_<func>: what the most recent call of <func> returned (first result of a tuple-free call), so a later
+		// in-body assert can say "this argument is that result"
+		if tr.lastRes == nil {
+			tr.lastRes = map[string]Val{}
+		}
+		tr.lastRes[shortLast(callee)] = res
+	}
 	if tr.contract == nil || !tr.top || tr.g.dry > 0 {
 		return
 	}
@@ -723,6 +731,9 @@ func (tr *Trans) callerAsserts(when, callee string, ord int, args []Val, res Val
 		}
 		if len(res.C) > 0 {
 			env.vars["callres"] = res
+		}
+		for k, v := range tr.lastRes {
+			env.vars["lastres_"+k] = v
 		}
 		env.vars["__pre_call"] = Val{}
 		t, extra := tr.goalClause(env, as.Clause.AST)
